@@ -112,16 +112,21 @@ Lemma hd_single (l : list name) x :
 Proof. destruct l as [|a [|b r]]; cbn; try discriminate. intros _ [= ->]. reflexivity. Qed.
 
 Section LoopPath.
-Variables (g : egraph) (top hd : name) (exits todo : list name) (isback : name -> name -> bool)
+Variables (g : egraph) (top hd : name) (headers exits todo : list name) (unified : bool)
+          (header_tbl : list (Z * name)) (isback : name -> name -> bool)
           (latch sexit : name) (ev bv : Z) (names : list name) (g' : egraph).
 Variable strict : bool.
 
 Let needs : bool := match exits with _ :: _ :: _ => true | _ => false end.
 
-Hypothesis Hrot : loop_rotate g hd [hd] exits todo false [] isback latch sexit ev bv names = Ok g'.
+Hypothesis Hrot : loop_rotate g hd headers exits todo unified header_tbl isback latch sexit ev bv names = Ok g'.
+(* a processed block: no declared back edges, distinct successors, no fresh name among them; a
+   branching synthetic block only if none of its arcs is rerouted *)
 Hypothesis Htodo : NoDup todo /\
-  forall p, In p todo -> exists b, efind g p = Some b /\ nonbranch b /\ e_be b = [] /\ NoDup (e_jt b) /\
-                                   (forall a, In a names -> ~ In a (e_jt b)).
+  forall p, In p todo -> exists b, efind g p = Some b /\ e_be b = [] /\ NoDup (e_jt b) /\
+                                   (forall a, In a names -> ~ In a (e_jt b)) /\
+                                   (nonbranch b \/
+                                    forall t, In t (e_jt b) -> zmem t exits = false /\ zmem t headers && isback p t = false).
 Hypothesis Hnames : NoDup names /\
   forall a, In a names -> efind g a = None /\ ~ In a todo /\ a <> latch /\ a <> sexit /\ a <> top.
 Hypothesis Hlatch : efind g latch = None /\ latch <> top /\ ~ In latch todo.
@@ -129,13 +134,7 @@ Hypothesis Hsexit : needs = true -> efind g sexit = None /\ sexit <> latch /\ se
 Hypothesis Hexits : NoDup exits /\ (forall x, In x exits -> In x (ekeys g)) /\ ~ In hd exits.
 Hypothesis Hhd : In hd (ekeys g).
 Hypothesis Htop : ~ In top (ekeys g).
-Hypothesis Hclosed : forall x b t, efind g x = Some b -> In t (e_jt b) -> In t (ekeys g).
-Hypothesis Hvars : ev <> bv /\ forall x b, efind g x = Some b ->
-  match e_kind b with
-  | EAssign a => forall p, In p a -> fst p <> ev /\ fst p <> bv
-  | EBranch _ v _ => v <> ev /\ v <> bv
-  | EPlain _ => True
-  end.
+Hypothesis Hevbv : ev <> bv.
 
 Let h := ehier top g.
 Let h' := ehier top g'.
@@ -149,7 +148,7 @@ Definition exit_target_of : option name := if needs then Some sexit else hd_erro
 
 Lemma rot_parts : exists xt g1 rest,
   exit_target_of = Some xt /\
-  le_blocks (mkL [hd] exits needs false ev bv latch hd xt (enumerate exits) [(0, hd); (1, xt)] [] isback) g todo names
+  le_blocks (mkL headers exits needs unified ev bv latch hd xt (enumerate exits) [(0, hd); (1, xt)] header_tbl isback) g todo names
     = Ok (g1, rest) /\
   g' = (let g2 := dset g1 latch (mkE [xt; hd] [hd] (EBranch C_LATCH bv [(0, hd); (1, xt)])) in
         if needs then dset g2 sexit (mkE exits [] (EBranch C_EXITBRANCH ev (enumerate exits))) else g2).
@@ -164,7 +163,7 @@ Qed.
 Section Parts.
 Variables (xt : name) (g1 : egraph) (rest : list name).
 Let back_tbl : list (Z * name) := [(0, hd); (1, xt)].
-Let c : lctx := mkL [hd] exits needs false ev bv latch hd xt (enumerate exits) back_tbl [] isback.
+Let c : lctx := mkL headers exits needs unified ev bv latch hd xt (enumerate exits) back_tbl header_tbl isback.
 Let LB : eblk := mkE [xt; hd] [hd] (EBranch C_LATCH bv back_tbl).
 Let SX : eblk := mkE exits [] (EBranch C_EXITBRANCH ev (enumerate exits)).
 Hypothesis Hxt : exit_target_of = Some xt.
@@ -194,6 +193,15 @@ Proof.
 Qed.
 
 (* what le_blocks did *)
+Lemma rerouted_none p b : In p todo -> efind g p = Some b ->
+  (forall t, In t (e_jt b) -> zmem t exits = false /\ zmem t headers && isback p t = false) ->
+  filter (rerouted c p) (e_jt b) = [].
+Proof.
+  intros _ _ H. induction (e_jt b) as [|t l IH]; [reflexivity|]. cbn [filter].
+  destruct (H t (or_introl eq_refl)) as [A B]. unfold rerouted at 1, c. cbn [l_exits l_headers l_isback].
+  rewrite A, B. cbn. apply IH. intros t0 Ht0. apply H. right. exact Ht0.
+Qed.
+
 Lemma blocks_done : exists used,
   names = used ++ rest /\
   (forall x, ~ In x todo -> ~ In x used -> efind g1 x = efind g x) /\
@@ -202,7 +210,9 @@ Lemma blocks_done : exists used,
 Proof.
   apply (le_blocks_spec c todo g names g1 rest Hblocks (proj1 Htodo) (proj1 Hnames)).
   - intros a Ha. apply (proj2 Hnames a Ha).
-  - intros p Hp. destruct (proj2 Htodo p Hp) as [b [Hb [Hnb _]]]. eauto.
+  - intros p Hp. destruct (proj2 Htodo p Hp) as [b [Hb [Hbe [_ [_ Hcase]]]]]. exists b. split; [exact Hb|].
+    rewrite (ejts_nobe b Hbe). destruct Hcase as [Hnb|Hnone]; [left; exact Hnb|right].
+    apply (rerouted_none p b Hp Hb Hnone).
 Qed.
 
 Lemma old_facts x : Oldl x -> x <> top /\ x <> latch /\ (needs = true -> x <> sexit) /\ ~ In x names.
@@ -213,46 +223,48 @@ Proof.
   intros Hi. destruct (proj2 Hnames x Hi) as [A _]. congruence.
 Qed.
 
+Lemma keep_g' x : x <> latch -> (needs = true -> x <> sexit) -> efind g' x = efind g1 x.
+Proof.
+  intros A B. rewrite find_g'. assert (needs && Z.eqb x sexit = false) as ->.
+  { destruct (bool_dec needs true) as [En|En].
+    - rewrite En. cbn. apply Z.eqb_neq. apply B. exact En.
+    - apply not_true_is_false in En. rewrite En. reflexivity. }
+  apply Z.eqb_neq in A. rewrite A. reflexivity.
+Qed.
+
 (* an old block that is not processed is untouched *)
 Lemma untouched x : Oldl x -> ~ In x todo -> efind g' x = efind g x.
 Proof.
   intros Hx Hnt. destruct (old_facts x Hx) as [_ [Hl [Hs Hn]]]. destruct blocks_done as [used [Hu [Hoth _]]].
-  rewrite find_g'. assert (needs && Z.eqb x sexit = false) as ->.
-  { destruct needs eqn:En; [|reflexivity]. cbn. apply Z.eqb_neq. apply Hs. reflexivity. }
-  apply Z.eqb_neq in Hl. rewrite Hl. apply Hoth; [exact Hnt|].
+  rewrite (keep_g' x Hl Hs). apply Hoth; [exact Hnt|].
   intros Hi. apply Hn. rewrite Hu. apply in_or_app. left. exact Hi.
 Qed.
 
 (* a processed block *)
-Lemma processed p : In p todo -> exists b usedp,
-  efind g p = Some b /\ nonbranch b /\ e_be b = [] /\ NoDup (e_jt b) /\
+Lemma processed p : In p todo -> exists b usedp b',
+  efind g p = Some b /\ e_be b = [] /\ NoDup (e_jt b) /\
   length usedp = length (filter (rerouted c p) (e_jt b)) /\
   (forall a, In a usedp -> In a names) /\ NoDup usedp /\
-  efind g' p = Some (mkE (subst_all (combine (filter (rerouted c p) (e_jt b)) usedp) (e_jt b)) [] (e_kind b)) /\
+  efind g' p = Some b' /\
+  replace_jt b (subst_all (combine (filter (rerouted c p) (e_jt b)) usedp) (e_jt b)) = Some b' /\
   (forall t a, In (t, a) (combine (filter (rerouted c p) (e_jt b)) usedp) ->
                efind g' a = Some (mkE [latch] [] (EAssign (asg_of c t)))).
 Proof.
   intros Hp. destruct blocks_done as [used [Hu [_ Hdone]]].
-  destruct (Hdone p Hp) as [b [usedp [Hb [[D1 [D2 [D2n D3]]] Hsub]]]].
-  destruct (proj2 Htodo p Hp) as [b0 [Hb0 [Hnb [Hbe [Hnd Hfr]]]]]. rewrite Hb in Hb0. injection Hb0 as <-.
+  destruct (Hdone p Hp) as [b [usedp [Hb [[[b' [D1 D1r]] [D2 [D2n D3]]] Hsub]]]].
+  destruct (proj2 Htodo p Hp) as [b0 [Hb0 [Hbe [Hnd [Hfr _]]]]]. rewrite Hb in Hb0. injection Hb0 as <-.
   assert (Hej : ejts b = e_jt b) by (apply ejts_nobe; exact Hbe).
   rewrite Hej in *.
   assert (Hin : forall a, In a usedp -> In a names).
   { intros a Ha. rewrite Hu. apply in_or_app. left. apply Hsub. exact Ha. }
   assert (Hpold : Oldl p) by (eapply efind_keys; eauto).
   destruct (old_facts p Hpold) as [_ [Hl [Hs _]]].
-  assert (Hkeep : forall x, x <> latch -> (needs = true -> x <> sexit) -> efind g' x = efind g1 x).
-  { intros x A B. rewrite find_g'. assert (needs && Z.eqb x sexit = false) as ->.
-    { destruct needs eqn:En; [|reflexivity]. cbn. apply Z.eqb_neq. apply B. reflexivity. }
-    apply Z.eqb_neq in A. rewrite A. reflexivity. }
-  exists b, usedp. split; [exact Hb|]. split; [exact Hnb|]. split; [exact Hbe|]. split; [exact Hnd|].
-  split; [exact D2|]. split; [exact Hin|]. split.
-  { exact D2n. }
-  split.
-  - rewrite (Hkeep p Hl Hs). rewrite D1, Hbe. reflexivity.
-  - intros t a Hi. assert (Ha : In a names) by (apply Hin; apply in_combine_r in Hi; exact Hi).
-    destruct (proj2 Hnames a Ha) as [_ [_ [A [B _]]]].
-    rewrite (Hkeep a A (fun _ => B)). apply D3. exact Hi.
+  exists b, usedp, b'. split; [exact Hb|]. split; [exact Hbe|]. split; [exact Hnd|].
+  split; [exact D2|]. split; [exact Hin|]. split; [exact D2n|]. split; [rewrite (keep_g' p Hl Hs); exact D1|].
+  split; [exact D1r|].
+  intros t a Hi. assert (Ha : In a names) by (apply Hin; apply in_combine_r in Hi; exact Hi).
+  destruct (proj2 Hnames a Ha) as [_ [_ [A [B _]]]].
+  rewrite (keep_g' a A (fun _ => B)). apply D3. exact Hi.
 Qed.
 
 (* ---------- lookups in the two hierarchies ---------- *)
@@ -272,7 +284,7 @@ Qed.
 Lemma old_in_g'l x : Oldl x -> exists b', efind g' x = Some b'.
 Proof.
   intros Hx. destruct (in_dec Z.eq_dec x todo) as [Hin|Hnin].
-  - destruct (processed x Hin) as [b [usedp [_ [_ [_ [_ [_ [_ [_ [H _]]]]]]]]]]. eauto.
+  - destruct (processed x Hin) as [b [usedp [b' [_ [_ [_ [_ [_ [_ [H _]]]]]]]]]]. eauto.
   - rewrite (untouched x Hx Hnin). apply keys_efind. exact Hx.
 Qed.
 
@@ -323,13 +335,7 @@ Proof. intros He H v Hv. rewrite H by exact Hv. apply He. exact Hv. Qed.
 Lemma not_fl v : ~ Fl v -> v <> ev /\ v <> bv.
 Proof. unfold Fl. tauto. Qed.
 
-(* ---------- the arcs ---------- *)
-Lemma edge_samel x t : Oldl t -> Edge h' r r' strict Fl Oldl x t t.
-Proof.
-  intros Ht e e' He. exists t, t, 0%nat, e'. split; [apply res_old; exact Ht|]. split; [exact Ht|].
-  split; [apply res_old'; exact Ht|]. split; [exact He|]. intros fuel. reflexivity.
-Qed.
-
+(* ---------- the bridges, in the rotated graph ---------- *)
 Lemma rev_back_xt : rev_lookup back_tbl xt = 1.
 Proof.
   unfold rev_lookup, back_tbl. cbn [filter snd]. pose proof xt_ne_hd as Hne.
@@ -372,11 +378,14 @@ Proof.
   rewrite (res_old' sexit t Ht). destruct strict; reflexivity.
 Qed.
 
-Lemma edge_exit x t a :
+(* an arc out of the loop: assignment block -> latch (-> exit branch) -> the exit *)
+Lemma bridge_exit t a :
   In t exits -> a <> top -> efind g' a = Some (mkE [latch] [] (EAssign (asg_of c t))) ->
-  Edge h' r r' strict Fl Oldl x t a.
+  forall e', exists k e'',
+    (forall v, ~ Fl v -> elook v e'' = elook v e') /\
+    forall fuel, srun h' r' strict (k + fuel) a e' = srun h' r' strict fuel t e''.
 Proof.
-  intros Hte Hat Ha e e' He.
+  intros Hte Hat Ha e'.
   assert (Ht : Oldl t) by (apply (proj1 (proj2 Hexits)); exact Hte).
   assert (Hasg : asg_of c t = (if needs then [(ev, rev_lookup (enumerate exits) t)] else []) ++ [(bv, 1)]).
   { unfold asg_of, c. cbn [l_exits l_needs l_ev l_exit_tbl l_bv l_back_tbl l_exit_target].
@@ -384,19 +393,16 @@ Proof.
   set (asg := asg_of c t) in *.
   set (e1 := eupd asg e').
   assert (Hfa : find h' a = Some (node_of top (a, mkE [latch] [] (EAssign asg)))) by (apply find_hl'; assumption).
-  assert (Hra : r' a latch = Some latch).
-  { unfold r', resolve_flat. eapply enter_flat_leaf; [exact find_latch|apply leaf_l]. }
   assert (Hbv1 : elook bv e1 = Some (1, [])).
   { unfold e1. rewrite elook_eupd, Hasg. destruct needs; cbn.
-    - destruct (Z.eqb bv ev) eqn:E0; [apply Z.eqb_eq in E0; exfalso; apply (proj1 Hvars); congruence|].
+    - destruct (Z.eqb bv ev) eqn:E0; [apply Z.eqb_eq in E0; exfalso; apply Hevbv; congruence|].
       rewrite Z.eqb_refl. reflexivity.
     - rewrite Z.eqb_refl. reflexivity. }
   assert (Hoth1 : forall v, ~ Fl v -> elook v e1 = elook v e').
   { intros v Hv. destruct (not_fl v Hv) as [A B]. unfold e1. apply eupd_other. rewrite Hasg.
     intros p Hp. apply in_app_or in Hp as [Hp|[<-|[]]]; [|cbn; congruence].
     destruct needs; [destruct Hp as [<-|[]]; cbn; congruence|destruct Hp]. }
-  assert (Hz1 : zassoc 1 back_tbl = Some xt).
-  { unfold back_tbl. cbn. reflexivity. }
+  assert (Hz1 : zassoc 1 back_tbl = Some xt) by reflexivity.
   set (e2 := if strict then eread bv 1 [] latch e1 else e1).
   assert (Hoth2 : forall v, ~ Fl v -> elook v e2 = elook v e').
   { intros v Hv. unfold e2. destruct strict; [|apply Hoth1; exact Hv].
@@ -408,13 +414,11 @@ Proof.
     { assert (elook ev e1 = Some (rev_lookup (enumerate exits) t, [])).
       { unfold e1. rewrite elook_eupd, Hasg, Hn. cbn. rewrite Z.eqb_refl. reflexivity. }
       unfold e2. destruct strict; [|exact H].
-      rewrite elook_eread. destruct (Z.eqb ev bv) eqn:E0; [apply Z.eqb_eq in E0; exfalso; apply (proj1 Hvars); exact E0|exact H]. }
+      rewrite elook_eread. destruct (Z.eqb ev bv) eqn:E0; [apply Z.eqb_eq in E0; exfalso; apply Hevbv; exact E0|exact H]. }
     set (i := rev_lookup (enumerate exits) t) in *.
     set (e3 := if strict then eread ev i [] sexit e2 else e2).
-    exists t, a, 3%nat, e3.
-    split; [apply res_old; exact Ht|]. split; [exact Ht|].
-    split; [eapply res_leaf'; eassumption|]. split.
-    + apply (E_after e e' e3 He). intros v Hv. unfold e3. destruct strict; [|apply Hoth2; exact Hv].
+    exists 3%nat, e3. split.
+    + intros v Hv. unfold e3. destruct strict; [|apply Hoth2; exact Hv].
       rewrite elook_eread. destruct (not_fl v Hv) as [A B].
       destruct (Z.eqb v ev) eqn:E0; [apply Z.eqb_eq in E0; contradiction|apply Hoth2; exact Hv].
     + intros fuel. change (3 + fuel)%nat with (S (S (S fuel))).
@@ -425,45 +429,79 @@ Proof.
       rewrite (exit_step fuel e2 i t Hn Hev2 (rev_lookup_enum exits 0 t Hte) Hte Ht). reflexivity.
   - (* one exit: the latch continues to it *)
     assert (Htx : t = xt) by (rewrite Hex1 in Hte; destruct Hte as [<-|[]]; reflexivity).
-    exists t, a, 2%nat, e2.
-    split; [apply res_old; exact Ht|]. split; [exact Ht|].
-    split; [eapply res_leaf'; eassumption|]. split; [apply (E_after e e' e2 He Hoth2)|].
+    exists 2%nat, e2. split; [exact Hoth2|].
     intros fuel. change (2 + fuel)%nat with (S (S fuel)).
     rewrite (assign_step (S fuel) a asg e' Hfa). fold e1.
     assert (Hrs : r' latch xt = Some t) by (rewrite <- Htx; apply res_old'; exact Ht).
     rewrite (latch_step fuel e1 1 xt Hbv1 Hz1 (or_introl eq_refl) t Hrs). reflexivity.
 Qed.
 
-Lemma edge_back x a :
-  a <> top -> efind g' a = Some (mkE [latch] [] (EAssign (asg_of c hd))) ->
-  Edge h' r r' strict Fl Oldl x hd a.
+(* an arc back to a header: assignment block -> latch -> the loop head, where the exit variable
+   (when one is written) holds what the header table gives for that header *)
+Lemma bridge_back t a :
+  ~ In t exits -> a <> top -> efind g' a = Some (mkE [latch] [] (EAssign (asg_of c t))) ->
+  forall e', exists e2,
+    (forall v, ~ Fl v -> elook v e2 = elook v e') /\
+    (needs || unified = true -> elook ev e2 = Some (rev_lookup header_tbl t, [])) /\
+    forall fuel, srun h' r' strict (2 + fuel) a e' = srun h' r' strict fuel hd e2.
 Proof.
-  intros Hat Ha e e' He.
-  assert (Hasg : asg_of c hd = [(bv, 0)] ++ (if needs || false then [(ev, rev_lookup [] hd)] else [])).
+  intros Hte Hat Ha e'.
+  assert (Hasg : asg_of c t = [(bv, 0)] ++ (if needs || unified then [(ev, rev_lookup header_tbl t)] else [])).
   { unfold asg_of, c. cbn [l_exits l_needs l_ev l_bv l_back_tbl l_head l_unified l_header_tbl].
-    assert (zmem hd exits = false) as -> by (apply zmem_false; apply (proj2 (proj2 Hexits))).
+    assert (zmem t exits = false) as -> by (apply zmem_false; exact Hte).
     rewrite rev_back_hd. reflexivity. }
-  set (asg := asg_of c hd) in *.
+  set (asg := asg_of c t) in *.
   set (e1 := eupd asg e').
   assert (Hfa : find h' a = Some (node_of top (a, mkE [latch] [] (EAssign asg)))) by (apply find_hl'; assumption).
-  assert (Hra : r' a latch = Some latch).
-  { unfold r', resolve_flat. eapply enter_flat_leaf; [exact find_latch|apply leaf_l]. }
   assert (Hbv0 : elook bv e1 = Some (0, [])).
   { unfold e1. rewrite elook_eupd, Hasg. cbn. rewrite Z.eqb_refl. reflexivity. }
   assert (Hoth1 : forall v, ~ Fl v -> elook v e1 = elook v e').
   { intros v Hv. destruct (not_fl v Hv) as [A B]. unfold e1. apply eupd_other. rewrite Hasg.
-    intros p [<-|Hp]; [cbn; congruence|]. destruct (needs || false); [destruct Hp as [<-|[]]; cbn; congruence|destruct Hp]. }
+    intros p [<-|Hp]; [cbn; congruence|]. destruct (needs || unified); [destruct Hp as [<-|[]]; cbn; congruence|destruct Hp]. }
   set (e2 := if strict then eread bv 0 [] latch e1 else e1).
-  exists hd, a, 2%nat, e2.
-  split; [apply res_old; exact Hhd|]. split; [exact Hhd|].
-  split; [eapply res_leaf'; eassumption|]. split.
-  - apply (E_after e e' e2 He). intros v Hv. unfold e2. destruct strict; [|apply Hoth1; exact Hv].
+  exists e2. split; [|split].
+  - intros v Hv. unfold e2. destruct strict; [|apply Hoth1; exact Hv].
     rewrite elook_eread. destruct (not_fl v Hv) as [A B].
     destruct (Z.eqb v bv) eqn:E0; [apply Z.eqb_eq in E0; contradiction|apply Hoth1; exact Hv].
+  - intros Hnu.
+    assert (H1 : elook ev e1 = Some (rev_lookup header_tbl t, [])).
+    { unfold e1. rewrite elook_eupd, Hasg, Hnu. cbn.
+      destruct (Z.eqb ev bv) eqn:E0; [apply Z.eqb_eq in E0; contradiction|]. rewrite Z.eqb_refl. reflexivity. }
+    unfold e2. destruct strict; [|exact H1]. rewrite elook_eread.
+    destruct (Z.eqb ev bv) eqn:E0; [apply Z.eqb_eq in E0; contradiction|exact H1].
   - intros fuel. change (2 + fuel)%nat with (S (S fuel)).
     rewrite (assign_step (S fuel) a asg e' Hfa). fold e1.
     assert (Hz0 : zassoc 0 back_tbl = Some hd) by reflexivity.
     rewrite (latch_step fuel e1 0 hd Hbv0 Hz0 (or_intror (or_introl eq_refl)) hd (res_old' latch hd Hhd)). reflexivity.
+Qed.
+
+(* ---------- the arcs, seen from the graph that was rotated ---------- *)
+Lemma edge_samel x t : Oldl t -> Edge h' r r' strict Fl Oldl x t t.
+Proof.
+  intros Ht e e' He. exists t, t, 0%nat, e'. split; [apply res_old; exact Ht|]. split; [exact Ht|].
+  split; [apply res_old'; exact Ht|]. split; [exact He|]. intros fuel. reflexivity.
+Qed.
+
+Lemma edge_exit x t a :
+  In t exits -> a <> top -> efind g' a = Some (mkE [latch] [] (EAssign (asg_of c t))) ->
+  Edge h' r r' strict Fl Oldl x t a.
+Proof.
+  intros Hte Hat Ha e e' He.
+  assert (Ht : Oldl t) by (apply (proj1 (proj2 Hexits)); exact Hte).
+  destruct (bridge_exit t a Hte Hat Ha e') as [k [e'' [Hsame Hrun]]].
+  exists t, a, k, e''. split; [apply res_old; exact Ht|]. split; [exact Ht|].
+  split; [eapply res_leaf'; eassumption|]. split; [apply (E_after e e' e'' He Hsame)|exact Hrun].
+Qed.
+
+(* an arc back to the loop head itself *)
+Lemma edge_back_head x a :
+  a <> top -> efind g' a = Some (mkE [latch] [] (EAssign (asg_of c hd))) ->
+  Edge h' r r' strict Fl Oldl x hd a.
+Proof.
+  intros Hat Ha e e' He.
+  destruct (bridge_back hd a (proj2 (proj2 Hexits)) Hat Ha e') as [e2 [Hsame [_ Hrun]]].
+  exists hd, a, 2%nat, e2. split; [apply res_old; exact Hhd|]. split; [exact Hhd|].
+  split; [eapply res_leaf'; eassumption|]. split; [apply (E_after e e' e2 He Hsame)|exact Hrun].
 Qed.
 
 Lemma map_snd_combine {A B} (l1 : list A) (l2 : list B) : length l1 = length l2 -> map snd (combine l1 l2) = l2.
@@ -484,31 +522,54 @@ Proof.
   constructor; [|exact IH]. intros Hi. apply filter_In in Hi as [Hi _]. contradiction.
 Qed.
 
+(* where the k-th successor of a processed block went *)
+Lemma processed_pos p b usedp : In p todo -> efind g p = Some b ->
+  NoDup (e_jt b) -> (forall a, In a names -> ~ In a (e_jt b)) ->
+  length usedp = length (filter (rerouted c p) (e_jt b)) -> (forall a, In a usedp -> In a names) -> NoDup usedp ->
+  forall k t, nth_error (e_jt b) k = Some t ->
+    nth_error (subst_all (combine (filter (rerouted c p) (e_jt b)) usedp) (e_jt b)) k =
+    Some (match passoc t (combine (filter (rerouted c p) (e_jt b)) usedp) with Some a => a | None => t end).
+Proof.
+  intros Hp Hb Hnd Hfr Hlen Hun Hndu k t Ht.
+  apply subst_all_pos; try assumption.
+  - rewrite map_snd_combine by (symmetry; exact Hlen). exact Hndu.
+  - rewrite map_fst_combine by (symmetry; exact Hlen). apply nodup_filter. exact Hnd.
+  - intros a Ha. rewrite map_snd_combine in Ha by (symmetry; exact Hlen).
+    split; [apply Hfr; apply Hun; exact Ha|].
+    rewrite map_fst_combine by (symmetry; exact Hlen). intros Hi. apply filter_In in Hi as [Hi _].
+    apply (Hfr a (Hun a Ha)). exact Hi.
+Qed.
+
+(* ---------- loops with one header ---------- *)
+Section Single.
+Hypothesis Hsingle : headers = [hd].
+Hypothesis Hclosed : forall x b t, efind g x = Some b -> In t (e_jt b) -> In t (ekeys g).
+Hypothesis Hvars : forall x b, efind g x = Some b ->
+  match e_kind b with
+  | EAssign a => forall p, In p a -> fst p <> ev /\ fst p <> bv
+  | EBranch _ v _ => v <> ev /\ v <> bv
+  | EPlain _ => True
+  end.
+(* (with one header every processed block of the theorem is without a table) *)
+Hypothesis Hnb : forall p b, In p todo -> efind g p = Some b -> nonbranch b.
+
 Lemma hold_l : forall x, Oldl x -> exists b b', find h x = Some b /\ find h' x = Some b' /\
   Compat h' r r' strict Fl Oldl x b b'.
 Proof.
   intros x Hx. destruct (old_facts x Hx) as [Hxt0 _].
   destruct (in_dec Z.eq_dec x todo) as [Hin|Hnin].
-  - destruct (processed x Hin) as [b [usedp [Hb [Hnb [Hbe [Hnd [Hlen [Hun [Hndu [Hb' Hasg]]]]]]]]]].
+  - destruct (processed x Hin) as [b [usedp [b' [Hb [Hbe [Hnd [Hlen [Hun [Hndu [Hb' [Hrj Hasg]]]]]]]]]]].
     set (arcs := combine (filter (rerouted c x) (e_jt b)) usedp) in *.
-    exists (node_of top (x, b)), (node_of top (x, mkE (subst_all arcs (e_jt b)) [] (e_kind b))).
+    pose proof (Hnb x b Hin Hb) as Hnbx. rewrite (replace_jt_nonbranch b _ Hnbx) in Hrj. injection Hrj as <-.
+    exists (node_of top (x, b)), (node_of top (x, mkE (subst_all arcs (e_jt b)) (e_be b) (e_kind b))).
     split; [apply find_hl; exact Hb|]. split; [apply find_hl'; assumption|].
+    destruct (proj2 Htodo x Hin) as [b0 [Hb0 [_ [_ [Hfr _]]]]]. rewrite Hb in Hb0. injection Hb0 as <-.
     apply compat_positions.
-    + exact Hnb.
+    + exact Hnbx.
     + symmetry. apply subst_all_length.
-    + intros k t t' Ht Ht'.
-      assert (Hpos : nth_error (subst_all arcs (e_jt b)) k =
-                     Some (match passoc t arcs with Some a => a | None => t end)).
-      { apply subst_all_pos; try assumption.
-        - unfold arcs. rewrite map_snd_combine by (symmetry; exact Hlen). exact Hndu.
-        - unfold arcs. rewrite map_fst_combine by (symmetry; exact Hlen). apply nodup_filter. exact Hnd.
-        - intros a Ha. unfold arcs in Ha. rewrite map_snd_combine in Ha by (symmetry; exact Hlen).
-          destruct (proj2 Htodo x Hin) as [b0 [Hb0 [_ [_ [_ Hfr]]]]]. rewrite Hb in Hb0. injection Hb0 as <-.
-          split; [apply Hfr; apply Hun; exact Ha|].
-          unfold arcs. rewrite map_fst_combine by (symmetry; exact Hlen). intros Hi. apply filter_In in Hi as [Hi _].
-          apply (Hfr a (Hun a Ha)). exact Hi. }
-      rewrite Hpos in Ht'. injection Ht' as <-.
-      destruct (passoc t arcs) as [a|] eqn:Hpa.
+    + intros k t t' Ht Ht'. cbn [e_jt] in Ht'. unfold arcs in Ht'.
+      rewrite (processed_pos x b usedp Hin Hb Hnd Hfr Hlen Hun Hndu k t Ht) in Ht'. injection Ht' as <-.
+      fold arcs. destruct (passoc t arcs) as [a|] eqn:Hpa.
       * apply passoc_combine_in in Hpa. pose proof (Hasg t a Hpa) as Ha.
         assert (Han : In a names) by (apply Hun; apply in_combine_r in Hpa; exact Hpa).
         destruct (proj2 Hnames a Han) as [_ [_ [_ [_ Hat]]]].
@@ -517,45 +578,115 @@ Proof.
         unfold rerouted, c in Hrr. cbn [l_exits l_headers l_isback] in Hrr.
         destruct (zmem t exits) eqn:Hze.
         -- apply zmem_In in Hze. apply edge_exit; assumption.
-        -- cbn [orb] in Hrr. apply andb_true_iff in Hrr as [Hh _]. apply zmem_In in Hh. destruct Hh as [<-|[]].
-           apply edge_back; assumption.
+        -- cbn [orb] in Hrr. apply andb_true_iff in Hrr as [Hh _]. rewrite Hsingle in Hh.
+           apply zmem_In in Hh. destruct Hh as [<-|[]]. apply edge_back_head; assumption.
       * apply edge_samel. eapply Hclosed; [exact Hb|eapply nth_error_In; exact Ht].
-    + pose proof (proj2 Hvars x b Hb) as Hv. destruct (e_kind b); try exact I.
+    + pose proof (Hvars x b Hb) as Hv. destruct (e_kind b); try exact I.
       intros p Hp [E0|E0]; destruct (Hv p Hp); congruence.
   - destruct (keys_efind g x Hx) as [b Hb].
     exists (node_of top (x, b)), (node_of top (x, b)).
     split; [apply find_hl; exact Hb|]. split; [apply find_hl'; [exact Hxt0|rewrite (untouched x Hx Hnin); exact Hb]|].
     apply compat_same.
     + intros t Ht. apply edge_samel. eapply Hclosed; eauto.
-    + pose proof (proj2 Hvars x b Hb) as Hv. destruct (e_kind b); try exact I.
+    + pose proof (Hvars x b Hb) as Hv. destruct (e_kind b); try exact I.
       * intros p Hp [E0|E0]; destruct (Hv p Hp); congruence.
       * intros [E0|E0]; destruct Hv; congruence.
 Qed.
+End Single.
 End Parts.
 
-Theorem loop_rotate_keeps_walks : forall n e e' ds tr st,
+Section SingleTheorems.
+Hypothesis Hsingle : headers = [hd].
+Hypothesis Hclosed : forall x b t, efind g x = Some b -> In t (e_jt b) -> In t (ekeys g).
+Hypothesis Hvars : forall x b, efind g x = Some b ->
+  match e_kind b with
+  | EAssign a => forall p, In p a -> fst p <> ev /\ fst p <> bv
+  | EBranch _ v _ => v <> ev /\ v <> bv
+  | EPlain _ => True
+  end.
+Hypothesis Hnb : forall p b, In p todo -> efind g p = Some b -> nonbranch b.
+
+Theorem rotate1_keeps_walks : forall n e e' ds tr st,
   (exists b, efind g n = Some b /\ e_kind b = EPlain 100) ->
   E Fl e e' ->
   WTrace h r strict n e ds tr st -> WTrace h' r' strict n e' ds tr st.
 Proof.
   intros n e e' ds tr st [b [Hb Hk]] He Hw.
   destruct rot_parts as [xt [g1 [rest [Hxt [Hblocks Hg']]]]].
-  apply (walk_refines h h' r r' strict Fl Oldl (hold_l xt g1 rest Hxt Hblocks Hg') n e ds tr st Hw e').
+  apply (walk_refines h h' r r' strict Fl Oldl (hold_l xt g1 rest Hxt Hblocks Hg' Hsingle Hclosed Hvars Hnb) n e ds tr st Hw e').
   - eapply efind_keys; eauto.
   - exists (node_of top (n, b)), 1. split; [apply find_hl; exact Hb|]. unfold node_of, kind_of. cbn. rewrite Hk. reflexivity.
   - exact He.
 Qed.
 
-Theorem loop_rotate_keeps_ctrace : forall n e e' ds,
+Theorem rotate1_keeps_ctrace : forall n e e' ds,
   (exists b, efind g n = Some b /\ e_kind b = EPlain 100) ->
   E Fl e e' ->
   CTrace h r strict n e ds -> CTrace h' r' strict n e' ds.
 Proof.
   intros n e e' ds [b [Hb Hk]] He Hw.
   destruct rot_parts as [xt [g1 [rest [Hxt [Hblocks Hg']]]]].
-  apply (ctrace_refines h h' r r' strict Fl Oldl (hold_l xt g1 rest Hxt Hblocks Hg') n e ds Hw e').
+  apply (ctrace_refines h h' r r' strict Fl Oldl (hold_l xt g1 rest Hxt Hblocks Hg' Hsingle Hclosed Hvars Hnb) n e ds Hw e').
   - eapply efind_keys; eauto.
   - exists (node_of top (n, b)), 1. split; [apply find_hl; exact Hb|]. unfold node_of, kind_of. cbn. rewrite Hk. reflexivity.
   - exact He.
 Qed.
+End SingleTheorems.
 End LoopPath.
+
+(* ---------- the statement for loops with one header, in one piece ---------- *)
+Section OneHeader.
+Variables (g : egraph) (top hd : name) (exits todo : list name) (isback : name -> name -> bool)
+          (latch sexit : name) (ev bv : Z) (names : list name) (g' : egraph) (strict : bool).
+Let needs : bool := match exits with _ :: _ :: _ => true | _ => false end.
+Hypothesis Hrot : loop_rotate g hd [hd] exits todo false [] isback latch sexit ev bv names = Ok g'.
+Hypothesis Htodo : NoDup todo /\
+  forall p, In p todo -> exists b, efind g p = Some b /\ nonbranch b /\ e_be b = [] /\ NoDup (e_jt b) /\
+                                   (forall a, In a names -> ~ In a (e_jt b)).
+Hypothesis Hnames : NoDup names /\
+  forall a, In a names -> efind g a = None /\ ~ In a todo /\ a <> latch /\ a <> sexit /\ a <> top.
+Hypothesis Hlatch : efind g latch = None /\ latch <> top /\ ~ In latch todo.
+Hypothesis Hsexit : needs = true -> efind g sexit = None /\ sexit <> latch /\ sexit <> top /\ ~ In sexit todo.
+Hypothesis Hexits : NoDup exits /\ (forall x, In x exits -> In x (ekeys g)) /\ ~ In hd exits.
+Hypothesis Hhd : In hd (ekeys g).
+Hypothesis Htop : ~ In top (ekeys g).
+Hypothesis Hclosed : forall x b t, efind g x = Some b -> In t (e_jt b) -> In t (ekeys g).
+Hypothesis Hvars : ev <> bv /\ forall x b, efind g x = Some b ->
+  match e_kind b with
+  | EAssign a => forall p, In p a -> fst p <> ev /\ fst p <> bv
+  | EBranch _ v _ => v <> ev /\ v <> bv
+  | EPlain _ => True
+  end.
+
+Lemma todo_general : NoDup todo /\
+  forall p, In p todo -> exists b, efind g p = Some b /\ e_be b = [] /\ NoDup (e_jt b) /\
+                                   (forall a, In a names -> ~ In a (e_jt b)) /\
+                                   (nonbranch b \/
+                                    forall t, In t (e_jt b) -> zmem t exits = false /\ zmem t [hd] && isback p t = false).
+Proof.
+  split; [apply Htodo|]. intros p Hp. destruct (proj2 Htodo p Hp) as [b [A [B [C [D F]]]]]. exists b. auto 8.
+Qed.
+
+Lemma todo_nonbranch : forall p b, In p todo -> efind g p = Some b -> nonbranch b.
+Proof. intros p b Hp Hb. destruct (proj2 Htodo p Hp) as [b0 [A [B _]]]. congruence. Qed.
+
+Theorem loop_rotate_keeps_walks : forall n e e' ds tr st,
+  (exists b, efind g n = Some b /\ e_kind b = EPlain 100) ->
+  E (Fl ev bv) e e' ->
+  WTrace (ehier top g) (resolve_flat (ehier top g)) strict n e ds tr st ->
+  WTrace (ehier top g') (resolve_flat (ehier top g')) strict n e' ds tr st.
+Proof.
+  exact (rotate1_keeps_walks g top hd [hd] exits todo false [] isback latch sexit ev bv names g' strict
+           Hrot todo_general Hnames Hlatch Hsexit Hexits Hhd Htop (proj1 Hvars) eq_refl Hclosed (proj2 Hvars) todo_nonbranch).
+Qed.
+
+Theorem loop_rotate_keeps_ctrace : forall n e e' ds,
+  (exists b, efind g n = Some b /\ e_kind b = EPlain 100) ->
+  E (Fl ev bv) e e' ->
+  CTrace (ehier top g) (resolve_flat (ehier top g)) strict n e ds ->
+  CTrace (ehier top g') (resolve_flat (ehier top g')) strict n e' ds.
+Proof.
+  exact (rotate1_keeps_ctrace g top hd [hd] exits todo false [] isback latch sexit ev bv names g' strict
+           Hrot todo_general Hnames Hlatch Hsexit Hexits Hhd Htop (proj1 Hvars) eq_refl Hclosed (proj2 Hvars) todo_nonbranch).
+Qed.
+End OneHeader.
